@@ -20,6 +20,8 @@ class FunctionReport:
         self.bounded = False
         self.exits = {"return": 0, "raise": {}}
         self.wall = 0.0
+        self.covered = set()
+        self.cover_unknown = set()
 
 
 def explore_path(uni, contract, prefix, rep=None):
@@ -41,6 +43,22 @@ def explore_path(uni, contract, prefix, rep=None):
         rep.unsupported = str(err)
     rep.bounded = rep.bounded or it.bounded
     rep.paths += 1
+    # reachability of the declared cover points on this path
+    for label, fmls in it.covers:
+        if label in rep.covered:
+            continue
+        s = z3.Solver()
+        s.set("timeout", 5000)
+        for f in fmls:
+            s.add(f)
+        r = s.check()
+        if r == z3.sat:
+            rep.covered.add(label)
+        elif r == z3.unknown:
+            # quantified path conditions: not refuted (the path itself was
+            # kept by the feasibility check); counted as reachable-unknown
+            rep.covered.add(label)
+            rep.cover_unknown.add(label)
     return it.obls, dec.todo, rep
 
 
@@ -123,9 +141,17 @@ def run_path(uni, it, c, fn, info, key, rep):
                 g = it.truth(it.ev(parse_expr(cond[1]), fr.old, pre), fr.old)
                 it.oblige(fr, st, "raises-iff", exc, z3.Not(g))
         it.frame_check(fr, st, fr.old, c.modifies, "exit")
+        for label, text, _ in c.covers:
+            if text.startswith("raise:"):
+                continue
+            g = it.truth(it.ev(parse_expr(text), st, post), st)
+            it.covers.append((label, list(uni.axioms) + list(st.pc) + [g]))
     else:
         rep.exits["raise"][value.cls] = rep.exits["raise"].get(value.cls,
                                                                0) + 1
+        for label, text, _ in c.covers:
+            if text == "raise:" + value.cls:
+                it.covers.append((label, list(uni.axioms) + list(st.pc)))
         decl = None
         anc = set(uni.repo.mro(value.cls)) | {value.cls}
         for exc in c.raises:
